@@ -18,6 +18,13 @@ pub use shims::{channel, fs, shim, sync, thread, walk, walker_threads};
 /// Entry point of a simulator build (hook H4). `run_once` is the CLI's own dispatch, taking the
 /// argument vector explicitly; it returns the error chain rendered as text on failure.
 pub fn sim_main(run_once: fn(Vec<String>) -> Result<(), String>) -> ! {
+    // Distinctive exit statuses: the code under test runs inside this process and may itself call
+    // `process::exit` with 0, 1 or 2; the wrapper script maps 40/41/42 back to 0/1/2 and treats
+    // everything else as "the process died".
     let code = driver::main(run_once);
-    std::process::exit(code)
+    std::process::exit(match code {
+        0 => 40,
+        1 => 41,
+        _ => 42,
+    })
 }
